@@ -217,13 +217,20 @@ py::object PyTreeSpec::WalkImpl(const py::iterable &leaves,
                     }
 
                     const py::object &node_type = GetType(node);
+                    // Do not hand out the key lists owned by the treespec.
+                    py::object node_data = (node.node_data ? node.node_data : py::none());
+                    if (node.kind == PyTreeKind::Dict || node.kind == PyTreeKind::OrderedDict)
+                        [[unlikely]] {
+                        node_data = ListCopy(node.node_data);
+                    } else if (node.kind == PyTreeKind::DefaultDict) [[unlikely]] {
+                        node_data = py::make_tuple(TupleGetItem(node.node_data, 0),
+                                                   ListCopy(TupleGetItem(node.node_data, 1)));
+                    }
                     {
                         const scoped_critical_section cs2{node_type};
                         agenda.emplace_back(EVALUATE_WITH_LOCK_HELD2(
-                            (*f_node)(node_type,
-                                      node.node_data ? node.node_data : py::none(),
-                                      children),
-                            node.node_data,
+                            (*f_node)(node_type, node_data, children),
+                            node_data,
                             *f_node));
                     }
                 } else [[unlikely]] {
